@@ -338,6 +338,8 @@ tramp(void)
     t->kind = -1;
     t->proc(t->arg);
     point(VS_EXIT, "");
+    if (cfg.events)
+        printf("T %d exit\n", cur);
     T[cur].finished = 1;
     int next = choose();
     switch_to(next, 1);
@@ -379,6 +381,8 @@ thread_create(struct thread* self, void (*proc)(void*), void* args)
     makecontext(&t->ctx, tramp, 0);
     self->tid_ = id;
     self->is_live_ = 1;
+    if (cfg.events)
+        printf("T %d create %d\n", cur, id);
     return 1;
 }
 
@@ -389,6 +393,8 @@ thread_join(struct thread* self)
         struct vthread* t = &T[cur];
         t->join_tid = self->tid_;
         point(VS_JOIN, T[self->tid_].name);
+        if (cfg.events)
+            printf("T %d joined %d\n", cur, self->tid_);
         self->is_live_ = 0;
     }
 }
